@@ -3,6 +3,7 @@ package output
 import (
 	"bytes"
 	"io"
+	"sync"
 
 	"github.com/go-task/task/v3/internal/templater"
 )
@@ -30,16 +31,25 @@ func (g Group) WrapWriter(stdOut, _ io.Writer, _ string, cache *templater.Cache)
 }
 
 type groupWriter struct {
-	writer     io.Writer
+	writer io.Writer
+	// mutex guards buff: stdout and stderr of a command, the stages of a
+	// pipeline and background jobs write from separate goroutines.
+	mutex      sync.Mutex
 	buff       bytes.Buffer
 	begin, end string
 }
 
 func (gw *groupWriter) Write(p []byte) (int, error) {
+	gw.mutex.Lock()
+	defer gw.mutex.Unlock()
+
 	return gw.buff.Write(p)
 }
 
 func (gw *groupWriter) close() error {
+	gw.mutex.Lock()
+	defer gw.mutex.Unlock()
+
 	if gw.buff.Len() == 0 {
 		// don't print begin/end messages if there's no buffered entries
 		return nil
